@@ -1,6 +1,6 @@
 #!/bin/sh
 # tools/verify_seed.sh <Cxx> <A|B> : confirm a seeded change in its scratch worktree (demo fails with / passes without; pinned suite passes with)
-C="$1"; X="$2"; W=/tmp/seed/$C; O=/tmp/seed/$C.out/$X
+C="$1"; X="$2"; R="${SEEDROOT:-/tmp/seed}"; W=$R/$C; O=$R/$C.out/$X
 cd "$W" || exit 2
 git checkout -q -- . ; git clean -qfd
 PYTHONPATH=$W/src timeout 300 /venv/bin/python "$O/demo.py" >/dev/null 2>&1; d0=$?
